@@ -342,7 +342,8 @@ class C01Driver:
                              "msg": f"{'shipped ' + plan['shipped'] if plan.get('shipped') else 'generated world'}: PYTHONHASHSEED={a} and {b} differ at step {step} in {what}",
                              "pair": [a, b], "plan": plan, "seed": plan["seed"]})
         feats = {"worlds_with_a_vehicle_in_two_or_more_fleets": 0, "worlds_with_two_or_more_on_shift_electric_plug_types_at_a_station": 0,
-                 "worlds_with_human_drivers": 0, "worlds_with_a_scripted_controller": 0, "worlds_on_a_street_graph": 0}
+                 "worlds_with_human_drivers": 0, "worlds_with_a_scripted_controller": 0, "worlds_on_a_street_graph": 0,
+                 "scarce_worlds_one_station_one_plug": 0, "worlds_ranking_stations_by_time_to_charge": 0}
         for plan in plans:
             sp = plan.get("spec") or {}
             if not sp.get("sim"):
